@@ -25,7 +25,8 @@ const cancelPrelude = `(do (def lp (fn [n] (lp (+ n 1))))
  (def rc (fn [n] (if (< n 1) 0 (+ 1 (rc (- n 1))))))
  (def rcl (fn [] (rc 300) (rcl)))
  (defmacro spin (fn [] '(spin)))
- (def spa (atom 0)))`
+ (def spa (atom 0))
+ (def oldfut (future (busy! 30000))))`
 
 var cancelMu sync.Mutex // the loop-top hook is process-wide
 
